@@ -266,7 +266,7 @@ def outInfoOf (t : TCfg) (r : R) (i : Info) : OutputInfo :=
     depth := (t.outColorDepth i r.flags).2, lineSize := outLineSize t i r.flags r.sub.width }
 
 /-- `frameInto` with `info()` present and a buffer of the documented size -/
-theorem frameInto_eq (cfg : Cfg) (t : TCfg) {r : R} {i : Info} (buf : Bytes) (hi : r.dec.info = some i)
+theorem frameInto_peq (cfg : Cfg) (t : TCfg) {r : R} {i : Info} (buf : Bytes) (hi : r.dec.info = some i)
     (hbuf : needOf t r i ≤ buf.length) :
     frameInto cfg t r buf =
       (match frameBody cfg t r i.interlaced (outLineSize t i r.flags r.sub.width) (outBits t i r.flags) buf with
